@@ -121,3 +121,33 @@ func (v *VerifC08Node) SnapshotEnv(index uint64) server.SSEnv {
 
 // LogReaderSnapshot is LogReader.Snapshot.
 func (v *VerifC08Node) LogReaderSnapshot() pb.Snapshot { return v.n.logReader.Snapshot() }
+
+// RequestStream is the apply worker handing a Stream task for replica `to` to
+// node.handleSnapshotTask (-> canStream) followed, when the request is
+// accepted, by the snapshot worker running node.stream with the given sink and
+// the completion handling (streamDone, processStreamStatus). accepted = false:
+// the request was refused and reported to raft as failed.
+func (v *VerifC08Node) RequestStream(to uint64, sink pb.IChunkSink) (accepted bool, err error) {
+	reported := false
+	v.n.handleSnapshotStatus = func(_ uint64, _ uint64, failed bool) {
+		if failed {
+			reported = true
+		}
+	}
+	v.n.handleSnapshotTask(rsm.Task{Stream: true, ShardID: v.n.shardID, ReplicaID: to})
+	if !v.n.ss.streaming() {
+		if !reported {
+			panic("verif: refused stream request was not reported as failed")
+		}
+		return false, nil
+	}
+	if _, _, ok := v.n.ss.getStreamReq(); !ok {
+		panic("verif: no stream job queued")
+	}
+	if err := v.n.stream(sink); err != nil {
+		return true, err
+	}
+	v.n.streamDone()
+	v.n.processStreamStatus()
+	return true, nil
+}
